@@ -71,6 +71,8 @@ def run(ctx):
         else:
             pool += [Category.parse(s) for s in ['S[mod=X1,form=X2,fin=X3]/S[mod=X1,form=X2,fin=X3]', 'NP[case=X1,mod=X2,fin=X3]/NP[case=X1,mod=X2,fin=X3]',
                                                  '(S[mod=X1,form=X2,fin=X3]\\NP[case=ga,mod=nm,fin=f])/(S[mod=X1,form=X2,fin=X3]\\NP[case=ga,mod=nm,fin=f])']]
+        # twins that differ only in variable features (a result cache keyed too coarsely would confuse them)
+        pool += [c.clear_features('X') for c in pool if 'X' in str(c)] if lang == 'en' else []
         n_pairs = 900 * nq
         fired = 0
         for it in range(n_pairs):
@@ -161,6 +163,20 @@ def run(ctx):
         o, _ = p.communicate()
         outs[s] = o.strip().splitlines()[-1] if o.strip() else ''
     base = outs[list(seeds)[0]]
+    # history independence: what this (long-running) process returns now for the same pairs, after thousands of other calls, must be
+    # what a fresh interpreter returns
+    def here(lang, x, y):
+        try:
+            rs = (en if lang == 'en' else ja).apply_binary_rules(Category.parse(x), Category.parse(y))
+            return [[str(r.cat), r.op_string, r.op_symbol, r.head_is_left] for r in rs]
+        except Exception as e:      # noqa
+            return 'ERR:' + type(e).__name__
+    fresh = json.loads(base or '[]')
+    for k, (lang, x, y) in enumerate(seed_pairs):
+        if k < len(fresh) and here(lang, x, y) != fresh[k]:
+            ctx.fail('history_dependence', f'{lang}: apply_binary_rules({x}, {y}) returns {here(lang, x, y)} in this process (after other calls) but {fresh[k]} in a fresh interpreter',
+                     {'lang': lang, 'x': x, 'y': y})
+            break
     for s in seeds:
         if outs[s] != base:
             a, b = json.loads(base or '[]'), json.loads(outs[s] or '[]')
